@@ -19,7 +19,9 @@ TraceInit == Init /\ l = 1
 
 Reset ==
   /\ cfg' = [srv |-> E.msg, cli |-> E.pay, rawcli |-> (E.res = "rawcli"), rawsrv |-> (E.res = "rawsrv"), ncli |-> E.n,
-             relay |-> IF E.x = "pd" THEN "px" ELSE ""]
+             relay |-> IF E.x = "pd" THEN "px" ELSE "",
+             \* (the destination the clients name: the server's name unless the Begin line says otherwise)
+             dst |-> IF Len(E.md) > 0 /\ E.md[1].k = "dst" THEN E.md[1].v[1] ELSE E.msg]
   /\ phase' = "run" /\ now' = 0
   /\ calls' = <<>> /\ byId' = <<>> /\ hi' = 0 /\ gaps' = {}
   /\ cw' = <<>> /\ nSR' = 0 /\ sw' = <<>> /\ nCR' = 0
